@@ -286,6 +286,39 @@ def r7_open_repairs_empty_log(ctx):
         r.violation(k, cfg.loc(b, splits[0]), "whether the log is rebuilt from the vault no longer depends on the loaded commit tree: a log file that exists but was emptied by an interrupted operation is opened as it is, and the folder serves secrets its log does not replay", work=len(live))
 
 
+EFFECTS = re.compile(r"^(write|write_all|write_exclusive|create|create_dir_all|rename|remove_file|set_len|conn_mut|conn_mut_and_then|insert_\w+|upsert_\w+|replace_\w+|create_folder_entry|apply|apply_records|patch_unchecked|truncate)$")
+
+
+def r8_refuse_before_effect(ctx):
+    """A request that is refused for what it contains (the folder id in the
+    buffer is not the id it was sent under) is refused before anything is
+    written: otherwise the refusal leaves storage changed, and after a restart
+    the account has a vault file that does not belong to the folder."""
+    ws = ctx.ws
+    r = ctx.rule("C13-R8", "an identifier-mismatch refusal happens before any storage effect",
+                 floor=2, kind="K2 ordering (error construction unreachable from effect sites)")
+    n = 0
+    for root, fn in sorted(ws.fns.items()):
+        if fn.crate in idioms.TEST_CRATES:
+            continue
+        for b in fn.bodies:
+            live = cfg.live_blocks(b)
+            errs = [i for i in live for s_ in b.blocks[i]["s"] if s_.get("k") == "agg" and s_.get("variant") == "VaultIdentifierMismatch"]
+            if not errs:
+                continue
+            n += 1
+            effects = [i for i, t in idioms.real_calls(b, live) if EFFECTS.match(cname(t)) and not re.search(r"(fmt::|io::Write::write_fmt|Vec<)", t.get("callee") or "")]
+            k = root + "|mismatch-before-effects"
+            late = [e for e in errs if any(e in cfg.reach_after(b, w) for w in effects)]
+            if late:
+                w0 = next(w for w in effects if late[0] in cfg.reach_after(b, w))
+                r.violation(k, cfg.loc(b, late[0]), "the VaultIdentifierMismatch refusal is raised after `%s` has already run: a refused import leaves the storage changed" % cname(b.blocks[w0]["term"]), work=len(live))
+            else:
+                r.ok(k, cfg.loc(b, errs[0]), "the identifier check precedes every storage effect (%d effect sites)" % len(effects), work=len(live))
+    if n < 2:
+        r.anchor_missing("functions refusing with VaultIdentifierMismatch (found %d)" % n)
+
+
 def r4_snapshot_before_destruction(ctx):
     ws = ctx.ws
     r = ctx.rule("C13-R4", "replace_all_events on files takes a snapshot before erasing and removes it only when verified",
@@ -353,3 +386,4 @@ def run(ctx):
     r5_vault_before_event(ctx)
     r6_no_discarded_results(ctx)
     r7_open_repairs_empty_log(ctx)
+    r8_refuse_before_effect(ctx)
